@@ -219,13 +219,30 @@ fn blackbox(kind: &str, k: usize, out: &mut Out) {
             out.viol("bb-two-answers", &format!("{kind} {k}: {extra} bytes follow a complete response"));
         }
         // (the close that follows an early response is the documented outcome, not a missing answer)
-        if class == "abort" && status == 0 && kind != "slow_client" && kind != "early_response" && kind != "upgrade_then_close" {
+        if seen.is_empty() && class == "abort" && status == 0 && kind != "slow_client" && kind != "early_response" && kind != "upgrade_then_close" && !kind.starts_with("reuse_") {
             out.viol("bb-no-answer", &format!("{kind} {k}: no answer: the client got no byte, only a close"));
         }
         seen.push((class, body as usize));
     }
     if seen.is_empty() {
         out.viol("bb-no-result", &format!("{kind} {k}: no result from the black-box driver"));
+        return;
+    }
+    if kind.starts_with("reuse_") {
+        let (want, _) = bb_expected(&kind["reuse_".len()..], k);
+        if seen.first().map(|x| x.0.as_str()) != Some("relay") {
+            out.viol("bb-mismatch", &format!("{kind} {k}: first request on the connection observed {:?}", seen.first()));
+        } else if seen.len() < 2 {
+            out.viol("bb-no-result", &format!("{kind} {k}: the second request was not sent"));
+        } else if !want.is_empty() && !want.contains(&seen[1].0) {
+            out.viol("bb-reuse", &format!("{kind} {k}: the second request on the reused connections observed '{}', documented {want:?}", seen[1].0));
+        }
+        return;
+    }
+    if kind == "sticky_refusing" {
+        if seen.first().map(|x| x.0.as_str()) != Some("relay") {
+            out.viol("bb-sticky", &format!("sticky_refusing: observed {:?} although a healthy backend exists", seen.first()));
+        }
         return;
     }
     if kind == "continue_then_close" {
